@@ -148,12 +148,20 @@ def build_generator(case):
     if g in ("OneDimSpatial",):
         return bg.OneDimSpatial(candidates=list(case["cands"]))
     # explicit integer sizes: the classes' own default kwargs (size=2.0) are rejected by numpy 2.x
+    # the classes bind numpy.random.uniform / normal as DEFAULT ARGUMENTS at import time, which the recorder's
+    # patch cannot reach: the distributions are passed explicitly as thin wrappers that look the numpy
+    # function up when called, so that the recorder's coarse grid applies and equal distances really occur
+    uni = lambda *a, **k: np.random.uniform(*a, **k)      # noqa: E731
+    def normal(*a, **k):                                  # (ClusteredSpatial accepts a voter distribution by its __name__)
+        return np.random.normal(*a, **k)
+    nor = normal
     if g == "Spatial":
         kw = {"low": 0.0, "high": 1.0, "size": 2}
-        return bg.Spatial(candidates=list(case["cands"]), voter_dist_kwargs=dict(kw), candidate_dist_kwargs=dict(kw))
+        return bg.Spatial(candidates=list(case["cands"]), voter_dist=uni, voter_dist_kwargs=dict(kw),
+                          candidate_dist=uni, candidate_dist_kwargs=dict(kw))
     if g == "ClusteredSpatial":
-        return bg.ClusteredSpatial(candidates=list(case["cands"]), voter_dist_kwargs={"loc": 0, "scale": 1.0, "size": 2},
-                                   candidate_dist_kwargs={"low": 0.0, "high": 1.0, "size": 2})
+        return bg.ClusteredSpatial(candidates=list(case["cands"]), voter_dist=nor, voter_dist_kwargs={"loc": 0, "scale": 1.0, "size": 2},
+                                   candidate_dist=uni, candidate_dist_kwargs={"low": 0.0, "high": 1.0, "size": 2})
     if g == "ImpartialCulture":
         return bg.ImpartialCulture(candidates=list(case["cands"]))
     if g == "ImpartialAnonymousCulture":
